@@ -471,6 +471,59 @@ def beta_reduce(func):
     return _Beta.count - before
 
 
+def propagate_state_snapshots(func):
+    """`x = <obj>.state` directly followed by an if/elif chain whose tests are the only readers of x  ->  the tests read <obj>.state
+    themselves.  Each test of the chain is evaluated before any branch body has run, so the attribute still has the value the local
+    was given.  Returns the number of locals replaced."""
+    count = 0
+
+    def visit(stmts):
+        nonlocal count
+        for j, st in enumerate(list(stmts)):
+            for fld in ('body', 'orelse', 'finalbody'):
+                sub = getattr(st, fld, None)
+                if isinstance(sub, list) and not isinstance(st, (ast.FunctionDef, ast.AsyncFunctionDef, ast.ClassDef)):
+                    visit(sub)
+            for h in getattr(st, 'handlers', []) or []:
+                visit(h.body)
+            if not (isinstance(st, ast.Assign) and len(st.targets) == 1 and isinstance(st.targets[0], ast.Name)
+                    and isinstance(st.value, ast.Attribute) and st.value.attr == 'state' and isinstance(st.value.value, ast.Name)):
+                continue
+            k = stmts.index(st)
+            if k + 1 >= len(stmts) or not isinstance(stmts[k + 1], ast.If):
+                continue
+            x = st.targets[0].id
+            chain = stmts[k + 1]
+            tests = []
+            node = chain
+            while True:
+                tests.append(node.test)
+                if len(node.orelse) == 1 and isinstance(node.orelse[0], ast.If):
+                    node = node.orelse[0]
+                else:
+                    break
+            in_tests = {id(n) for t in tests for n in ast.walk(t) if isinstance(n, ast.Name) and n.id == x}
+            all_uses = [n for n in ast.walk(func) if isinstance(n, ast.Name) and n.id == x]
+            stores = [n for n in all_uses if isinstance(n.ctx, (ast.Store, ast.Del))]
+            loads = [n for n in all_uses if isinstance(n.ctx, ast.Load)]
+            if len(stores) != 1 or not loads or any(id(n) not in in_tests for n in loads):
+                continue
+            if any(isinstance(c, ast.Call) for t in tests for c in ast.walk(t)):
+                continue            # a call in a test could change the state before a later test reads it
+            sub = _Subst({x: st.value}, {})
+            node = chain
+            while True:
+                node.test = sub.visit(node.test)
+                if len(node.orelse) == 1 and isinstance(node.orelse[0], ast.If):
+                    node = node.orelse[0]
+                else:
+                    break
+            stmts.remove(st)
+            count += 1
+    visit(func.body)
+    return count
+
+
 def count_loops_to_while(func):
     """`for i in itertools.count(a[, c]): if C: break; BODY`  ->  `i = a; while not C: BODY; i += c` (no `continue` in BODY, i not rebound
     in BODY).  Returns the number of loops rewritten."""
@@ -1511,6 +1564,9 @@ class Inliner:
                 k = count_loops_to_while(fi.node)
                 if k:
                     self.report.setdefault('count_loops', {})[q] = k
+                k = propagate_state_snapshots(fi.node)
+                if k:
+                    self.report.setdefault('state_snapshots', {})[q] = k
                 k = unroll_literal_loops(fi.node)
                 if k:
                     self.report.setdefault('unrolled_literal_loops', {})[q] = k
